@@ -401,6 +401,13 @@ static void op_realloc_ex(int op, int s /* slot or -1 for NULL input */, size_t 
     if (fl & F_AT) off = (s >= 0 && old.al > 0 ? old.off : (vf_randn(2) ? 8 : 0));
     else if (s >= 0 && old.off != 0) { al = 1; }
     if (al > (16u << 20)) off = 0;
+    /* every third _at re-allocation of an existing block asks for ANOTHER alignment / offset and a size the block could hold as it is
+       (50-100% of its usable size): staying in place is only right if the old address happens to satisfy the new request */
+    if ((fl & F_AT) && s >= 0 && old.us >= 64 && old.us < (1u << 20) && al <= 4096 && vf_randn(3) == 0) {
+      al = (old.al >= 16 && old.al < 2048 ? old.al * 2 : 64); off = 8 * (1 + (size_t)vf_randn(5));
+      n = old.us - (size_t)vf_randn(old.us / 3 + 1);
+      if (fl & F_CNT) { cnt = n / sz; if (cnt == 0) cnt = 1; n = cnt * sz; }
+    }
   }
   if ((op == R_new_realloc || op == R_new_reallocn) && n > (64u << 20)) n = 1000;
   if (!(fl & F_HEAP)) hidx = -1;
